@@ -12,7 +12,8 @@ RULE = ("random CQMs over <= 5 binary/spin/small-integer variables, 0..4 constra
         "(violations, iter_violations with skip_satisfied/clip, iter_constraint_data, check_feasible, from_samples_cqm, "
         "ExactCQMSolver) compared with the spec evaluated in Coq on the reported coefficients; non-trivial = at least one constraint; "
         "distinct by canonical JSON of the case")
-TRUSTED = ["model/spec: coq/theories/Model/Feas.v, Poly.v, ChkC08.v (hand written, tied by this correspondence)",
+TRUSTED = ["spec and loop structure: coq/theories/Model/Feas.v, Poly.v, ChkC08.v (hand written, tied by this correspondence); the formulas of both code paths "
+           "(activity, violation per sense, tolerance, skip/clip, soft penalties) are GENERATED from constrained.py / sampleset.py by translators/feas_formulas.py (Gen/Gen_Feas.v, fail-closed)",
            "float arithmetic of the implementation is exact on the generated dyadic data (not verified)",
            "with the default tolerances (1e-8, 1e-6) all data are integers, so the comparison violation <= tol equals violation <= 0"]
 ASSUMPTIONS = ["the coefficients an expression reports define its energy (property C01)",
